@@ -4789,6 +4789,12 @@ class PyCdlib:
         if child.inode is None:
             raise pycdlibexception.PyCdlibInternalError('Child file found without inode')
 
+        for record, is_pvd_unused in child.inode.linked_records:
+            if isinstance(record, eltorito.EltoritoEntry):
+                # The boot catalog (and a boot info table) describe this file
+                # as well, and those are not rewritten here.
+                raise pycdlibexception.PyCdlibInvalidInput('Cannot modify a file in place that is an El Torito boot file')
+
         child.inode.update_fp(fp, length)
 
         # Remove the old size from the PVD size.
